@@ -4,6 +4,7 @@ log p(x, z) - log q(z), is tight at the posterior (lemma), and the optimiser app
 from __future__ import annotations
 
 import types
+from vt.stubs.ns import StubNS
 
 import z3
 
@@ -22,7 +23,7 @@ JNP = jnp_stub.namespace()
 vi.jnp = JNP
 vi.scan = lax_stub.scan
 EXPECT = []
-vi.expectation = lambda f: EXPECT.append(f) or types.SimpleNamespace(inner=f, wrapped_by="expectation")
+vi.expectation = lambda f: EXPECT.append(f) or StubNS(inner=f, wrapped_by="expectation")
 
 
 class _NoReplay(Contract):
@@ -261,3 +262,7 @@ class ElboVI(_NoReplay):
 from vt.contract import track as _track  # noqa: E402
 
 _track(EXPECT)
+
+from vt.contract import canary as _canary  # noqa: E402
+
+_canary(OptimizeVI, "track_history", "update_is_params_plus_lr_times_gradient(ascent)")
